@@ -8,6 +8,9 @@ import (
 	"google.golang.org/protobuf/reflect/protoregistry"
 
 	_ "google.golang.org/protobuf/internal/testprotos/annotation"
+	_ "google.golang.org/protobuf/internal/testprotos/conformance"
+	_ "google.golang.org/protobuf/internal/testprotos/conformance/editions"
+	_ "google.golang.org/protobuf/internal/testprotos/conformance/editionsmigration"
 	_ "google.golang.org/protobuf/internal/testprotos/editionsfuzztest"
 	_ "google.golang.org/protobuf/internal/testprotos/enums"
 	_ "google.golang.org/protobuf/internal/testprotos/enums/enums_hybrid"
@@ -44,9 +47,6 @@ import (
 	_ "google.golang.org/protobuf/internal/testprotos/textpbeditions"
 	_ "google.golang.org/protobuf/internal/testprotos/textpbeditions/textpbeditions_hybrid"
 	_ "google.golang.org/protobuf/internal/testprotos/textpbeditions/textpbeditions_opaque"
-	_ "google.golang.org/protobuf/internal/testprotos/conformance"
-	_ "google.golang.org/protobuf/internal/testprotos/conformance/editions"
-	_ "google.golang.org/protobuf/internal/testprotos/conformance/editionsmigration"
 	_ "google.golang.org/protobuf/types/descriptorpb"
 	_ "google.golang.org/protobuf/types/gofeaturespb"
 	_ "google.golang.org/protobuf/types/known/anypb"
